@@ -38,7 +38,28 @@ def _hierarchy():
 
     class Other(Drivable):
         value = Parameter('v', FloatRange(0, 10, unit='K'), default=1)
-    return dict(base=Base, suba=SubA, subb=SubB, subc=SubC, other=Other)
+
+    # module properties overridden by bare values at two levels of one chain, and by two siblings
+    class Mid(Base):
+        group = 'cryo'
+        slowinterval = 30
+
+    class Leaf(Mid):
+        group = 'magnet'
+        slowinterval = 60
+
+    class Sib1(Mid):
+        visibility = 'expert'
+
+    class Sib2(Mid):
+        visibility = 'advanced'
+        group = 'sib2'
+    return dict(base=Base, suba=SubA, subb=SubB, subc=SubC, other=Other, mid=Mid, leaf=Leaf, sib1=Sib1, sib2=Sib2)
+
+
+EXPECTED_PROPS = dict(mid={'group': 'cryo', 'slowinterval': 30}, leaf={'group': 'magnet', 'slowinterval': 60},
+                      sib1={'group': 'cryo', 'visibility': 'expert', 'slowinterval': 30}, sib2={'group': 'sib2', 'visibility': 'advanced'},
+                      base={}, suba={}, subb={}, subc={}, other={})
 
 
 def _class_accessibles(classes):
@@ -46,11 +67,11 @@ def _class_accessibles(classes):
 
 
 def gen_module_init(tier, rng):
-    """5 generated classes (single / multiple inheritance, mixin, overrides by Parameter(), bare value, None, plain method)
+    """9 generated classes (single / multiple inheritance, mixin, overrides by Parameter(), bare value, None, plain method)
     instantiated in every order, with and without configuration overrides; each instantiation is one case"""
     from bounded import nodelib
     import types
-    orders = list(itertools.permutations(['base', 'suba', 'subb', 'subc', 'other']))
+    orders = [tuple(rng.sample(['base', 'suba', 'subb', 'subc', 'other', 'mid', 'leaf', 'sib1', 'sib2'], 9)) for _ in range(200)]
     if tier == 'quick':
         orders = rng.sample(orders, 12)
     cfgs = [{}, {'value': {'max': 3}}, {'mode': {'value': 2}}]
@@ -72,7 +93,8 @@ def gen_module_init(tier, rng):
             before = describe()
             yield dict(label=f'order={order} create {name} cfg={cfg}', self=obj,
                        args={'name': f'{name}{i}', 'logger': nodelib.quiet_logger(), 'cfgdict': cfg, 'srv': srv},
-                       ghosts={'other_accessibles': others, 'descriptions_before': before, 'DESCRIBE': describe})
+                       ghosts={'other_accessibles': others, 'descriptions_before': before, 'DESCRIBE': describe,
+                               'expected_props': EXPECTED_PROPS[name]})
             if hasattr(obj, 'accessibles') and isinstance(getattr(obj, 'name', None), str):
                 made.append((name, obj))
                 # a run-time mutation of this instance must not show anywhere else (checked by the next case's `before`)
@@ -96,4 +118,71 @@ def gen_clone(which):
     return gen
 
 
-GENS = {'Module.__init__': gen_module_init, 'Command.clone': gen_clone('Command'), 'Parameter.clone': gen_clone('Parameter')}
+def gen_class_definitions(tier, rng):
+    """class definition sequences: a Parameter(max=..) override followed by a bare-value override further down, a partial Parameter
+    in a mixin used with two different bases, siblings defined after such chains - every valid order of the definitions"""
+    import itertools
+    from frappy.modules import Module, Parameter
+    from frappy.modulebase import HasAccessibles
+    from frappy.datatypes import FloatRange, IntRange
+    F010 = {'type': 'double', 'min': 0.0, 'max': 10.0}
+    F05 = {'type': 'double', 'min': 0.0, 'max': 5.0}
+    I05 = {'type': 'int', 'min': 0, 'max': 5}
+    # name -> (bases, namespace factory, expected datainfo of x)
+    SPECS = {
+        'A': ((), lambda: {'x': Parameter('x', FloatRange(0, 10), default=1)}, F010, 'Module'),
+        'A2': ((), lambda: {'x': Parameter('x2', IntRange(0, 100), default=1)}, {'type': 'int', 'min': 0, 'max': 100}, 'Module'),
+        'B': (('A',), lambda: {'x': Parameter(max=5)}, F05, None),
+        'C': (('B',), lambda: {'x': 3}, F05, None),
+        'D': (('A',), lambda: {}, F010, None),
+        'E': (('A',), lambda: {'x': 2}, F010, None),
+        'Mixin': ((), lambda: {'x': Parameter(max=5)}, None, 'HasAccessibles'),
+        'M1': (('Mixin', 'A'), lambda: {}, F05, None),
+        'M2': (('Mixin', 'A2'), lambda: {}, I05, None),
+    }
+    names = list(SPECS)
+    orders = []
+    for _ in range(40 if tier == 'quick' else 300):
+        o = rng.sample(names, len(names))
+        # a class can only be defined after its bases
+        done, fixed = set(), []
+        pending = list(o)
+        while pending:
+            for n in pending:
+                if all(b in done for b in SPECS[n][0]):
+                    fixed.append(n)
+                    done.add(n)
+                    pending.remove(n)
+                    break
+        orders.append(fixed)
+    roots = {'Module': Module, 'HasAccessibles': HasAccessibles}
+    for order in orders:
+        defined = {}
+
+        def describe():
+            def info(acc):
+                try:
+                    return acc.datatype.export_datatype()
+                except Exception:
+                    return repr(getattr(acc, 'datatype', None))      # a partial Parameter (mixin) has no exportable datatype yet
+            return {n: {a: (info(acc), getattr(acc, 'description', None))
+                        for a, acc in c.accessibles.items() if a == 'x'} for n, c in defined.items() if hasattr(c, 'accessibles')}
+        for n in order:
+            bases, ns, expect, root = SPECS[n]
+            bs = tuple(defined[b] for b in bases) or (roots[root],)
+            if root == 'Module' or (bases and any(issubclass(b, Module) for b in bs)):
+                pass
+            before = describe()
+            box = {}
+
+            def call(n=n, bs=bs, ns=ns, box=box):
+                box['cls'] = type(n, bs, dict(ns(), __module__=__name__))
+            yield dict(label=f'order={order} define {n}({", ".join(bases)})', self=None, args={}, call=call,
+                       ghosts={'descriptions_before': before, 'CLASS_DESCRIPTIONS': describe, 'NEW_CLASS': lambda box=box: box['cls'],
+                               'expected_datainfo': {'x': expect} if expect else {}, 'mixin_users': ('Mixin', 'M1', 'M2')},
+                       finding_keys={'ensures.mixin_users_unchanged': 'C09-mixin-partial-parameter-shared'} if n in ('M1', 'M2') else {})
+            if 'cls' in box:
+                defined[n] = box['cls']
+
+
+GENS = {'HasAccessibles.__init_subclass__': gen_class_definitions, 'Module.__init__': gen_module_init, 'Command.clone': gen_clone('Command'), 'Parameter.clone': gen_clone('Parameter')}
